@@ -326,6 +326,9 @@ Proof.
   exists 4%Z, (fun j => iz j), (5 # 2). split; [lia|]. intros E. vm_compute in E. discriminate E.
 Qed.
 
+Lemma Qsq_nonneg (a : Q) : 0 <= a * a.
+Proof. destruct a as [p q]. unfold Qle, Qmult. cbn [Qnum Qden]. nia. Qed.
+
 (* with circle=True, default output size and the sinogram padded to the diagonal, every pixel
    of the reconstruction disc projects into the detector: the mask never fires there *)
 Lemma backproj_in_range N c s row col :
@@ -340,12 +343,16 @@ Proof.
   assert (HR : (0 <= R)%Z) by (unfold R; lia).
   set (t := iz x * c - iz y * s).
   assert (Hxy : iz x * iz x + iz y * iz y <= iz R * iz R).
-  { rewrite <- !iz_mul, <- iz_add. apply iz_le. lia. }
+  { rewrite <- !iz_mul, <- iz_add. apply (proj1 (iz_le _ _)). rewrite !Z.pow_2_r in Hin. lia. }
   assert (Ht2 : t * t <= iz R * iz R).
   { assert (Hc : t * t + (iz x * s + iz y * c) * (iz x * s + iz y * c)
                  == (iz x * iz x + iz y * iz y) * (c * c + s * s)) by (unfold t; ring).
     rewrite Hcs in Hc.
-    assert (0 <= (iz x * s + iz y * c) * (iz x * s + iz y * c)) by nra. lra. }
+    pose proof (Qsq_nonneg (iz x * s + iz y * c)) as Hsq.
+    set (u2 := (iz x * s + iz y * c) * (iz x * s + iz y * c)) in *.
+    set (t2 := t * t) in *. set (r2 := iz x * iz x + iz y * iz y) in *.
+    assert (E : t2 == r2 - u2) by (rewrite <- (Qmult_1_r r2), <- Hc; ring).
+    rewrite E. lra. }
   assert (HR' : 0 <= iz R) by (apply (proj1 (iz_le 0 R)); exact HR).
   assert (Hlo : - iz R <= t) by nra.
   assert (Hhi : t <= iz R) by nra.
@@ -407,15 +414,15 @@ Lemma circ_filter_lin hker P S a f b g fg j :
   (forall m, fg m == a * f m + b * g m) ->
   circ_filter hker P S fg j == a * circ_filter hker P S f j + b * circ_filter hker P S g j.
 Proof.
-  intros H. unfold circ_filter. rewrite <- sumQ_lin. apply sumQ_ext. intros m _. rewrite H. ring.
+  intros H. unfold circ_filter. rewrite <- sumQ_lin. apply sumQ_ext. intros m _. cbv beta. rewrite (H m). ring.
 Qed.
 
 Lemma port_interp_lin v S a f b g fg t :
   (forall j, fg j == a * f j + b * g j) ->
   port_interp v S fg t == a * port_interp v S f t + b * port_interp v S g t.
 Proof.
-  intros H. unfold port_interp. cbv zeta. rewrite !H.
-  destruct (v_interp_mask v); [destruct (_ && _)%bool|]; ring.
+  intros H. unfold port_interp. cbv zeta.
+  destruct (v_interp_mask v); [destruct (_ && _)%bool|]; rewrite ?H; ring.
 Qed.
 
 Lemma iradon_linear hker pi v A N circle ang a f b g row col :
